@@ -227,7 +227,14 @@ class C19(Prop):
                 else:
                     ops.append("num")
             elif r < 0.93 + 2 * p_clone + p_reuse:
-                ops.append("kh_reuse"); pool = []; seen = set()
+                ops.append("kh_reuse"); ghosts = pool[-30:]; pool = []; seen = set()
+                # keys from before the reuse must now be absent, and storable again from index 0
+                for k in ghosts[:8]:
+                    ops.append("lookup key=%s" % hx(k))
+                for k in ghosts[8:12]:
+                    ops.append("store key=%s" % hx(k))
+                    if k not in seen:
+                        seen.add(k); pool.append(k)
             else:
                 ops.append(rng.choice(["getall", "num", "kh_sizes", "getall"]))
         ops.append("getall"); ops.append("kh_sizes")
